@@ -99,138 +99,156 @@ theorem onConnectSlave_idem (c : Config) : onConnectSlave (onConnectSlave c) = o
 /-! ### histories -/
 
 @[simp] theorem setConn_dflt (w : World) (i : Nat) (s : ConnSt) : (w.setConn i s).dflt = w.dflt := rfl
+@[simp] theorem setConn_dicts (w : World) (i : Nat) (s : ConnSt) : (w.setConn i s).dicts = w.dicts := rfl
 @[simp] theorem setConn_same (w : World) (i : Nat) (s : ConnSt) : (w.setConn i s).conns i = s := by
   simp [World.setConn]
 theorem setConn_other (w : World) (i j : Nat) (s : ConnSt) (h : j ≠ i) : (w.setConn i s).conns j = w.conns j := by
   simp [World.setConn, h]
 
-/-- no event writes the module-level defaults -/
-theorem step_dflt (w : World) (e : Event) : (step w e).dflt = w.dflt := by
+/-- only the application's own `DEFAULT_CONFIG.update(..)` writes the module-level defaults: no connection event does -/
+theorem step_dflt (w : World) (e : Event) (h : ∀ ov, e ≠ .setDefault ov) : (step w e).dflt = w.dflt := by
   cases e with
-  | «open» i ov => simp only [step]; split <;> simp
-  | slave i => simp only [step]; split <;> simp
-  | close i => simp only [step]; split <;> simp
+  | «open» i ov => cases hw : w.conns i <;> simp [step, hw]
+  | openWith i d => cases hw : w.conns i <;> simp [step, hw]
+  | slave i => cases hw : w.conns i <;> simp [step, hw]
+  | close i => cases hw : w.conns i <;> simp [step, hw]
   | access i => rfl
+  | editDict d ov => rfl
+  | setDefault ov => exact absurd rfl (h ov)
 
-/-- an event of connection `i` leaves every other slot alone -/
-theorem step_other (w : World) (e : Event) (j : Nat) (h : e.conn ≠ j) : (step w e).conns j = w.conns j := by
+/-- no connection event writes the application's dict objects -/
+theorem step_dicts (w : World) (e : Event) (h : e.isEnv = false) : (step w e).dicts = w.dicts := by
   cases e with
-  | «open» i ov => have hj : j ≠ i := fun x => h x.symm
+  | «open» i ov => cases hw : w.conns i <;> simp [step, hw]
+  | openWith i d => cases hw : w.conns i <;> simp [step, hw]
+  | slave i => cases hw : w.conns i <;> simp [step, hw]
+  | close i => cases hw : w.conns i <;> simp [step, hw]
+  | access i => rfl
+  | editDict d ov => simp [Event.isEnv] at h
+  | setDefault ov => simp [Event.isEnv] at h
+
+theorem step_dflt_of_notEnv (w : World) (e : Event) (h : e.isEnv = false) : (step w e).dflt = w.dflt :=
+  step_dflt w e (fun ov he => by subst he; simp [Event.isEnv] at h)
+
+/-- an event that is not connection `j`'s own — another connection's, an edit of an application dict (even the very
+dict object `j` was opened with), an edit of `DEFAULT_CONFIG` — leaves slot `j` alone -/
+theorem step_other (w : World) (e : Event) (j : Nat) (h : e.conn ≠ some j) : (step w e).conns j = w.conns j := by
+  cases e with
+  | «open» i ov => have hj : j ≠ i := fun x => h (by simp [Event.conn, x])
                    cases hw : w.conns i <;> simp [step, hw, setConn_other _ _ _ _ hj]
-  | slave i => have hj : j ≠ i := fun x => h x.symm
+  | openWith i d => have hj : j ≠ i := fun x => h (by simp [Event.conn, x])
+                    cases hw : w.conns i <;> simp [step, hw, setConn_other _ _ _ _ hj]
+  | slave i => have hj : j ≠ i := fun x => h (by simp [Event.conn, x])
                cases hw : w.conns i <;> simp [step, hw, setConn_other _ _ _ _ hj]
-  | close i => have hj : j ≠ i := fun x => h x.symm
+  | close i => have hj : j ≠ i := fun x => h (by simp [Event.conn, x])
                cases hw : w.conns i <;> simp [step, hw, setConn_other _ _ _ _ hj]
   | access i => rfl
+  | editDict d ov => rfl
+  | setDefault ov => rfl
 
-/-- what an event of connection `j` does to slot `j` depends only on slot `j` and the defaults -/
-theorem step_own (w w' : World) (e : Event) (j : Nat) (he : e.conn = j)
-    (hc : w.conns j = w'.conns j) (hd : w.dflt = w'.dflt) : (step w e).conns j = (step w' e).conns j := by
+/-- what an event does to slot `j` depends only on slot `j`, the defaults and the application's dicts -/
+theorem step_own (w w' : World) (e : Event) (j : Nat)
+    (hc : w.conns j = w'.conns j) (hd : w.dflt = w'.dflt) (hx : w.dicts = w'.dicts) :
+    (step w e).conns j = (step w' e).conns j := by
+  by_cases he : e.conn = some j
+  · cases e with
+    | «open» i ov =>
+      simp only [Event.conn, Option.some.injEq] at he; subst he
+      simp only [step]
+      rw [← hc, ← hd]
+      cases hw : w.conns i <;> simp [← hc, hw]
+    | openWith i d =>
+      simp only [Event.conn, Option.some.injEq] at he; subst he
+      simp only [step]
+      rw [← hc, ← hd, ← hx]
+      cases hw : w.conns i <;> simp [← hc, hw]
+    | slave i =>
+      simp only [Event.conn, Option.some.injEq] at he; subst he
+      simp only [step]
+      rw [← hc]
+      cases hw : w.conns i <;> simp [← hc, hw]
+    | close i =>
+      simp only [Event.conn, Option.some.injEq] at he; subst he
+      simp only [step]
+      rw [← hc]
+      cases hw : w.conns i <;> simp [← hc, hw]
+    | access i => exact hc
+    | editDict d ov => exact hc
+    | setDefault ov => exact hc
+  · rw [step_other w e j he, step_other w' e j he, hc]
+
+theorem step_env_congr (w w' : World) (e : Event) (hd : w.dflt = w'.dflt) (hx : w.dicts = w'.dicts) :
+    (step w e).dflt = (step w' e).dflt ∧ (step w e).dicts = (step w' e).dicts := by
   cases e with
-  | «open» i ov =>
-    simp only [Event.conn] at he; subst he
-    simp only [step]
-    rw [← hc, ← hd]
-    cases hw : w.conns i <;> simp [← hc, hw]
-  | slave i =>
-    simp only [Event.conn] at he; subst he
-    simp only [step]
-    rw [← hc]
-    cases hw : w.conns i <;> simp [← hc, hw]
-  | close i =>
-    simp only [Event.conn] at he; subst he
-    simp only [step]
-    rw [← hc]
-    cases hw : w.conns i <;> simp [← hc, hw]
-  | access i => exact hc
+  | «open» i ov => cases hw : w.conns i <;> cases hw' : w'.conns i <;> simp [step, hw, hw', hd, hx]
+  | openWith i d => cases hw : w.conns i <;> cases hw' : w'.conns i <;> simp [step, hw, hw', hd, hx]
+  | slave i => cases hw : w.conns i <;> cases hw' : w'.conns i <;> simp [step, hw, hw', hd, hx]
+  | close i => cases hw : w.conns i <;> cases hw' : w'.conns i <;> simp [step, hw, hw', hd, hx]
+  | access i => exact ⟨hd, hx⟩
+  | editDict d ov => simp [step, hd, hx]
+  | setDefault ov => simp [step, hd, hx]
 
-theorem runEvents_dflt (w : World) (evs : List Event) : (runEvents w evs).dflt = w.dflt := by
+theorem runEvents_dflt (w : World) (evs : List Event) (h : ∀ e ∈ evs, ∀ ov, e ≠ .setDefault ov) :
+    (runEvents w evs).dflt = w.dflt := by
   induction evs generalizing w with
   | nil => rfl
-  | cons e es ih => simp [runEvents, ih, step_dflt]
+  | cons e es ih =>
+    simp only [runEvents]
+    rw [ih _ (fun x hx => h x (List.mem_cons_of_mem _ hx)), step_dflt w e (h e (List.mem_cons_self ..))]
 
-/-- noninterference, general form: two worlds that agree on slot `j` and on the defaults still agree on slot `j`
-after the one has run a whole history and the other only `j`'s own events of it -/
+/-- noninterference, general form: two worlds that agree on slot `j`, on the defaults and on the application's dicts
+still agree on slot `j` after the one has run a whole history and the other only `j`'s own events plus the
+environment edits of it -/
 theorem runEvents_filter (j : Nat) (evs : List Event) (w w' : World)
-    (hc : w.conns j = w'.conns j) (hd : w.dflt = w'.dflt) :
-    (runEvents w evs).conns j = (runEvents w' (evs.filter (fun e => e.conn == j))).conns j := by
+    (hc : w.conns j = w'.conns j) (hd : w.dflt = w'.dflt) (hx : w.dicts = w'.dicts) :
+    (runEvents w evs).conns j
+      = (runEvents w' (evs.filter (fun e => e.conn == some j || e.isEnv))).conns j := by
   induction evs generalizing w w' with
   | nil => simpa [runEvents] using hc
   | cons e es ih =>
-    by_cases he : e.conn = j
-    · have : (e.conn == j) = true := by simp [he]
-      simp only [runEvents, List.filter_cons, this, if_true]
-      exact ih _ _ (step_own w w' e j he hc hd) (by simp [step_dflt, hd])
-    · have : (e.conn == j) = false := by simp [he]
-      simp only [runEvents, List.filter_cons, this]
-      exact ih _ _ (by rw [step_other w e j he, hc]) (by simp [step_dflt, hd])
+    by_cases hk : (e.conn == some j || e.isEnv) = true
+    · simp only [runEvents, List.filter_cons, hk, if_true]
+      obtain ⟨h1, h2⟩ := step_env_congr w w' e hd hx
+      exact ih _ _ (step_own w w' e j hc hd hx) h1 h2
+    · have hk' : (e.conn == some j || e.isEnv) = false := by simpa using hk
+      simp only [runEvents, List.filter_cons, hk']
+      have hne : e.conn ≠ some j := by
+        intro h; simp [h] at hk'
+      have henv : e.isEnv = false := by
+        cases hh : e.isEnv <;> simp [hh] at hk' ⊢
+      exact ih _ _ (by rw [step_other w e j hne, hc]) (by rw [step_dflt_of_notEnv w e henv, hd])
+        (by rw [step_dicts w e henv, hx])
 
-/-- invariant for the closed form: every non-fresh slot holds the defaults overlaid with the overlay of an `open`
-event of that very connection, with or without the classic-mode update on top -/
-def CfgFrom (dflt : Config) (opened : List Event) (j : Nat) (cfg : Config) : Prop :=
-  ∃ ov, Event.open j ov ∈ opened ∧ (cfg = applyOverlay dflt ov ∨ cfg = onConnectSlave (applyOverlay dflt ov))
+/-- the states a slot can be in once it holds the snapshot `cfg`: that snapshot, with or without the classic-mode
+update, live or closed -/
+def Frozen (cfg : Config) (s : ConnSt) : Prop :=
+  s = .live cfg ∨ s = .live (onConnectSlave cfg) ∨ s = .closed cfg ∨ s = .closed (onConnectSlave cfg)
 
-def SlotOk (dflt : Config) (opened : List Event) (j : Nat) : ConnSt → Prop
-  | .fresh => True
-  | .live cfg => CfgFrom dflt opened j cfg
-  | .closed cfg => CfgFrom dflt opened j cfg
-
-theorem SlotOk.mono {dflt : Config} {l l' : List Event} {j : Nat} {s : ConnSt}
-    (h : SlotOk dflt l j s) (hl : ∀ e ∈ l, e ∈ l') : SlotOk dflt l' j s := by
-  cases s with
-  | fresh => trivial
-  | live cfg => obtain ⟨ov, ho, hcfg⟩ := h; exact ⟨ov, hl _ ho, hcfg⟩
-  | closed cfg => obtain ⟨ov, ho, hcfg⟩ := h; exact ⟨ov, hl _ ho, hcfg⟩
-
-theorem step_slotOk (w : World) (e : Event) (seen : List Event)
-    (h : ∀ j, SlotOk w.dflt seen j (w.conns j)) : ∀ j, SlotOk w.dflt (seen ++ [e]) j ((step w e).conns j) := by
-  intro j
-  have hmono : ∀ x ∈ seen, x ∈ seen ++ [e] := fun x hx => List.mem_append_left _ hx
-  by_cases he : e.conn = j
+theorem step_frozen (w : World) (e : Event) (j : Nat) (cfg : Config) (h : Frozen cfg (w.conns j)) :
+    Frozen cfg ((step w e).conns j) := by
+  by_cases he : e.conn = some j
   · cases e with
     | «open» i ov =>
-      simp only [Event.conn] at he; subst he
-      simp only [step]
-      cases hw : w.conns i with
-      | fresh =>
-        simp only [setConn_same]
-        exact ⟨ov, by simp, Or.inl rfl⟩
-      | live cfg => simp only [hw]; exact (hw ▸ h i).mono hmono
-      | closed cfg => simp only [hw]; exact (hw ▸ h i).mono hmono
+      simp only [Event.conn, Option.some.injEq] at he; subst he
+      rcases h with h | h | h | h <;> simp [step, h, Frozen]
+    | openWith i d =>
+      simp only [Event.conn, Option.some.injEq] at he; subst he
+      rcases h with h | h | h | h <;> simp [step, h, Frozen]
     | slave i =>
-      simp only [Event.conn] at he; subst he
-      simp only [step]
-      cases hw : w.conns i with
-      | fresh => simp only [hw]; trivial
-      | live cfg =>
-        simp only [setConn_same]
-        obtain ⟨ov, ho, hcfg⟩ := (hw ▸ h i : SlotOk w.dflt seen i (.live cfg))
-        refine ⟨ov, hmono _ ho, Or.inr ?_⟩
-        rcases hcfg with rfl | rfl
-        · rfl
-        · exact onConnectSlave_idem _
-      | closed cfg => simp only [hw]; exact (hw ▸ h i).mono hmono
+      simp only [Event.conn, Option.some.injEq] at he; subst he
+      rcases h with h | h | h | h <;> simp [step, h, Frozen, onConnectSlave_idem]
     | close i =>
-      simp only [Event.conn] at he; subst he
-      simp only [step]
-      cases hw : w.conns i with
-      | fresh => simp only [hw]; trivial
-      | live cfg =>
-        simp only [setConn_same]
-        exact ((hw ▸ h i : SlotOk w.dflt seen i (.live cfg))).mono hmono
-      | closed cfg => simp only [hw]; exact (hw ▸ h i).mono hmono
-    | access i => exact (h j).mono hmono
-  · rw [step_other w e j he]
-    exact (h j).mono hmono
+      simp only [Event.conn, Option.some.injEq] at he; subst he
+      rcases h with h | h | h | h <;> simp [step, h, Frozen]
+    | access i => exact h
+    | editDict d ov => exact h
+    | setDefault ov => exact h
+  · rw [step_other w e j he]; exact h
 
-theorem runEvents_slotOk (evs : List Event) (w : World) (seen : List Event)
-    (h : ∀ j, SlotOk w.dflt seen j (w.conns j)) :
-    ∀ j, SlotOk w.dflt (seen ++ evs) j ((runEvents w evs).conns j) := by
-  induction evs generalizing w seen with
-  | nil => simpa [runEvents] using h
-  | cons e es ih =>
-    intro j
-    have := ih (step w e) (seen ++ [e]) (by simpa [step_dflt] using step_slotOk w e seen h) j
-    simpa [runEvents, step_dflt, List.append_assoc] using this
+theorem runEvents_frozen (evs : List Event) (w : World) (j : Nat) (cfg : Config) (h : Frozen cfg (w.conns j)) :
+    Frozen cfg ((runEvents w evs).conns j) := by
+  induction evs generalizing w with
+  | nil => exact h
+  | cons e es ih => exact ih _ (step_frozen w e j cfg h)
 
 end Rpyc.Policy
